@@ -144,4 +144,6 @@ def sstep (s : SState) (ws : List String) : SState × String :=
 
 def spec : Component := { σ := SState, init := {}, step := sstep }
 
+def components : List (String × Component) := [("msg-model", model), ("msg-spec", spec)]
+
 end Nng.Driver.Msg
